@@ -936,5 +936,9 @@ def extra_checks(ctx, cases_, impl_lines, model_lines_):
     sleep, from its first poll on and after every kind of edit (C15's lock-step histories, kind 6): `refresh_rate`
     is one of the things C14 says a document means"""
     from gen import xcheck
-    return xcheck.borrow(ctx, "C15", "the refresh_rate of the document is the rate init_file's refresh thread runs at",
-                         lambda c: c[0] == 6, n=90)
+    return (xcheck.borrow(ctx, "C15", "the refresh_rate of the document is the rate init_file's refresh thread runs at",
+                          lambda c: c[0] == 6, n=90)
+            # size limits, intervals and refresh rates written as strings or numbers mean the same number of bytes /
+            # the same unit in a document as in the programmatic configuration (C20's literals, all three fields)
+            + xcheck.borrow(ctx, "C20", "numeric literals of a document (limit, interval, refresh_rate)",
+                            lambda c: True, n=2500, seed_salt=13))
